@@ -321,9 +321,9 @@ CHECKS = {"perm": chk_perm, "mesh": chk_mesh, "equiv": chk_equiv, "sets": chk_se
 
 # ---- workload ------------------------------------------------------------------------------------------
 def plan(tier, seed):
-    nmax = 6 if tier == "quick" else 7
+    nmax = 6 if tier == "quick" else 8
     specs = [{"name": f"perms-{n}-{part}", "kind": "perms", "n": n, "part": part, "parts": parts}
-             for n in range(nmax + 1) for parts in [1 if n < 6 else (4 if n == 6 else 16)] for part in range(parts)]
+             for n in range(nmax + 1) for parts in [1 if n < 6 else (4 if n == 6 else (16 if n == 7 else 96))] for part in range(parts)]
     specs += [{"name": f"mesh-small-{part}", "kind": "meshsmall", "part": part, "parts": 4} for part in range(4)]
     nrand = 3200 if tier == "quick" else 100000
     specs += [{"name": f"rand-{i}", "kind": "rand", "mesh": nrand // 32, "equiv": nrand // 16, "sets": (320 if tier == "quick" else 6000) // 16}
